@@ -179,6 +179,9 @@ def cmd_sdr_list(ipmi, args):
         iter_fct = ipmi.sdr_repository_entries
     elif device_id.supports_function('sensor'):
         iter_fct = ipmi.device_sdr_entries
+    else:
+        print('Device provides neither an SDR repository nor sensors')
+        return
 
     print("SDR-ID |     | Device String      |")
     print("=======|=====|====================|====================")
